@@ -14,6 +14,7 @@ take a square root), reasoned about over a linearly ordered field in Lemmas/ and
 numpy expressions are transcribed element-wise: `M[x,:].sum(0)[j]` is `ssum x (fun i => M[i][j])`.
 -/
 import PybropsModel.Np
+import PybropsModel.Model.Variance
 
 namespace Selection
 
@@ -375,6 +376,42 @@ def calcOhvmat (H : List (List (List (List α)))) (xmap : List (List Nat)) : Lis
 def calcEmbv (nrep : Nat) (tmaxs : List (List (List α))) (ntrait : Nat) : List (List α) :=
   tmaxs.map fun reps => (List.range ntrait).map fun j =>
     (reps.take nrep).foldl (fun avg r => avg + vget r j) 0 / (nrep : α)
+
+/-! ### `_calc_ohvmat`: the memory-chunk loop, transcribed literally -/
+
+/-- `out[rst:rsp,:] = rows` for a slice inside the array (`rows.length = rsp - rst`) -/
+def setRows {β : Type} (out : List β) (rst : Nat) (rows : List β) : List β :=
+  out.take rst ++ rows ++ out.drop (rst + rows.length)
+
+/-- `_calc_ohvmat(ploidy, haplomat, xmap, mem)` as written:
+    `out = numpy.empty((nconfig,t)); step = nconfig if mem is None else mem;`
+    `for rst,rsp in zip(range(0,nconfig,step), srange(step,nconfig,step)):`
+    `    xconfig = xmap[rst:rsp,:]; out[rst:rsp,:] = ploidy * haplomat[:,xconfig,:,:].max((0,2)).sum(1)`.
+    Uninitialised rows of `numpy.empty` are modelled by `[]`.  `none`: `range()` rejects step 0
+    (`mem = 0`, or `mem = None` with an empty cross map). -/
+def calcOhvmatChunked (mem : Option Nat) (H : List (List (List (List α)))) (xmap : List (List Nat)) :
+    Option (List (List α)) :=
+  let nconfig := xmap.length
+  let step := mem.getD nconfig
+  if step = 0 then none else
+  some ((Variance.chunks 0 nconfig step).foldl
+    (fun out c => setRows out c.1 (calcOhvmat H ((xmap.drop c.1).take (c.2 - c.1))))
+    (List.replicate nconfig []))
+
+/-! ### `DenseExpectedMaximumBreedingValueMatrix.from_gmod` (doubled-haploid simulation scripted) -/
+
+/-- `bvmat.tmax(unscale = True)`: per trait the maximum over the progeny rows -/
+def tmaxRows (prog : List (List α)) (ntrait : Nat) : List α :=
+  (List.range ntrait).map fun t => maxL (prog.map fun r => vget r t)
+
+/-- `from_gmod` given `prog[i][j]` = the (nprogeny_i × t) breeding values of the DH progeny drawn for taxon
+    `i` in replicate `j` (at least `nrep[i]` replicates are supplied; the code draws exactly `nrep[i]`):
+    `for i: mbv = empty((nrep[i],t)); for j in range(nrep[i]): mbv[j,:] = gebv(dh(i)).tmax(True);`
+    `embv[i,:] = mbv.mean(axis=0)` -/
+def embvMat (nrep : List Nat) (prog : List (List (List (List α)))) (ntrait : Nat) : List (List α) :=
+  (List.range prog.length).map fun i =>
+    let mbv := ((prog.getD i []).take (nrep.getD i 0)).map fun rep => tmaxRows rep ntrait
+    (List.range ntrait).map fun t => Np.sum (mbv.map fun r => vget r t) / ((nrep.getD i 0 : Nat) : α)
 
 /-! ### RealLookAheadGeneralizedWeightedGenomicSelectionProblem (simulation with scripted mating) -/
 
